@@ -199,7 +199,8 @@ func genGetConc(seed uint64) lib.Case {
 	}
 	srv := cachesim.NewServer(chain)
 	defer srv.Close()
-	if r.Chance(1, 2) { // some base fetches fail
+	if r.Chance(2, 3) { // some base fetches fail: transport, RPC error, or a reply that validate rejects
+		srv.SetFaults(false, false, r.Intn(cachesim.NFaults))
 		for i := 0; i < 2; i++ {
 			o := lib.Pick(r, all)
 			srv.FailKey(o.Start, o.Limit, r.Range(1, 2))
@@ -262,6 +263,11 @@ func genGetConc(seed uint64) lib.Case {
 			for when, d := range map[string][]cachesim.DBlock{"at return": call.Snap, "at the end": later} {
 				if v := cachesim.View(d, op.Extra, op.Addrs); !cachesim.EqualDump(v, truth) {
 					fails = append(fails, fmt.Sprintf("g%d op %d %s: view %v differs from the chain %v", g, i, when, v, truth))
+				}
+				for _, b := range d {
+					if b.Hash >= cachesim.BadHashDelta || b.Num >= op.Start+op.Limit || b.Num < op.Start {
+						fails = append(fails, fmt.Sprintf("g%d op %d %s: block (num %d, hash %d) of a reply that validate rejected was served", g, i, when, b.Num, b.Hash))
+					}
 				}
 				if p := cachesim.Problems(d); len(p) > 0 {
 					fails = append(fails, fmt.Sprintf("g%d op %d %s: %s", g, i, when, strings.Join(p, ", ")))
